@@ -7,7 +7,7 @@ BASELINE = "cd /repo && /venv/bin/python -m pytest -ra -q -p no:cacheprovider --
 CHECKS = {
     "C04": dict(
         text="Seeded search (deterministic simulation of the block workers' thread pool with fault injection) over kernel inputs, block splits, "
-        "schedules and worker failures: every block-wise execution is compared with the single-pass kernel and the single-pass kernel with a "
+        "schedules and faults (worker failure before/after a task, thread-spawn failure, interruption of the waiting caller): every block-wise execution is compared with the single-pass kernel and the single-pass kernel with a "
         "pure-Python per-group reference model. Sampling of the bounded space the property names (not enumeration); a clean batch is evidence, not proof.",
         note="Trusts: task atomicity (numba nogil kernels), NUMBA_BOUNDSCHECK=1 for memory safety, the 60-line reference model in gbsim/c04.py, numpy/pyarrow. "
         "The int64-sum-with-int64.min cell is compared only within one container type.",
@@ -18,7 +18,7 @@ CHECKS = {
 
 CHECKS["C20"] = dict(
     text="Seeded search over arrays, thread counts (explicit and the default heuristic on a simulated machine of 1-64 CPUs), block schedules of the simulated "
-    "pool and injected worker failures; every result is compared with NumPy's NaN-aware function computed in float64 (exactly for min/max/count, within a "
+    "pool and injected faults (worker failure, spawn failure, interruption of the waiting caller); every result is compared with NumPy's NaN-aware function computed in float64 (exactly for min/max/count, within a "
     "derived summation bound for sum/mean/var/std) and with the one-thread result. The pure helper clauses (nb_dot, bools_to_categorical, pretty_cut) are "
     "evaluated alongside against their definitions; the level claimed rests on the reducer clause. Sampling: evidence, not proof.",
     note="Trusts NumPy as the oracle, task atomicity, NUMBA_BOUNDSCHECK=1. Integer arrays never contain int64.min (library null marker, no NumPy counterpart).",
@@ -29,7 +29,7 @@ CHECKS["C20"] = dict(
 CHECKS["C03"] = dict(
     text="Seeded search over logical datasets, operations, execution strategies (chunking threshold, rows per thread, key chunks, simulated cpu_count, pool "
     "workers, pyarrow chunk layouts of keys and values), schedules of the simulated thread pool (two independent schedules per strategy) and injected worker "
-    "failures. Relational oracle: a fresh GroupBy under the explored strategy must give the same outcome as under the baseline strategy (whole factorization, "
+    "failures / spawn failures / interruptions of the waiting caller. Operations come from the whole public catalogue, one in five through the pandas-style facade. Relational oracle: a fresh GroupBy under the explored strategy must give the same outcome as under the baseline strategy (whole factorization, "
     "one thread, contiguous inputs); a faulted call must raise or return the baseline value. A real-scale arm exercises the unmodified 1,000,000-row literals. "
     "Sampling: a clean batch is evidence, not proof.",
     note="Trusts the baseline strategy as reference (a defect identical under every strategy is invisible by design), task atomicity, NUMBA_BOUNDSCHECK=1, "
@@ -40,7 +40,7 @@ CHECKS["C03"] = dict(
 
 CHECKS["C13"] = dict(
     text="Seeded search over histories: one GroupBy is driven by a simulated client through 2-8 (thorough: 14) drawn steps -- any public operation with fresh "
-    "masks/columns, copy-constructor steps, class-form calls, failing calls, and in the fault configuration one injected worker failure -- under drawn strategy "
+    "masks/columns (directly or through a reused pandas-style facade object), copy-constructor steps, class-form calls, failing calls, and in the fault configuration one injected worker failure, spawn failure or interruption of the waiting caller -- under drawn strategy "
     "knobs so that every key representation (contiguous, chunked with per-chunk dictionaries, chunked after unification, sorted prefix, arrow-chunked) is reached "
     "at small sizes. After every step the outcome is compared with a fresh GroupBy used for that step only, and the grouping's labels and per-row labels are "
     "compared with those at construction. Sampling: evidence, not proof.",
@@ -51,7 +51,7 @@ CHECKS["C13"] = dict(
 CHECKS["C19"] = dict(
     text="Seeded search over client/library histories sharing memory: keys, values, masks and codes live in drawn containers (NumPy strided/offset/read-only views, "
     "pandas NumPy- and Arrow-backed, Categorical, polars, pyarrow arrays and chunked arrays); after every step -- including failing steps and steps with an injected "
-    "worker failure -- byte-level fingerprints of every owning buffer and the grouping's labels are compared with the initial ones; after a scribble over every "
+    "worker failure or interruption, and steps through the pandas-style facade -- byte-level fingerprints of every owning buffer and the grouping's labels are compared with the initial ones; after a scribble over every "
     "writable byte of a returned result the fingerprints are checked again and the identical call repeated on the same and on a fresh object must equal a deep copy "
     "of the first result. The simulated pool's shared-write monitor flags any task that writes into an argument array. Sampling: evidence, not proof.",
     note="Trusts the fingerprint walker of gbsim/executor.py to reach every owning buffer; the client writes only where the result reports itself writable.",
